@@ -517,8 +517,8 @@ def judge_producer(world, h, relaxed):
                         why = 'no-validator'
                     else:
                         val_expected[hid] += 1
-                        if vs.get('verdict', 'PASS') not in ACCEPT_V2:
-                            deliver = False
+                        if vs.get('verdict', 'PASS') not in ACCEPT_V2 or vs.get('raise'):
+                            deliver = False             # a validator that gives up (raises) has not accepted
                             why = 'validator-rejected'
                 elif c['signed']:
                     vs = aop.get('validator')
@@ -529,7 +529,7 @@ def judge_producer(world, h, relaxed):
                         who = hid
                     if vs is not None:
                         val_expected[who] += 1
-                        if vs.get('verdict', 'PASS') not in TRUTHY_V1:
+                        if vs.get('verdict', 'PASS') not in TRUTHY_V1 or vs.get('raise'):
                             deliver = False
                             why = 'validator-rejected'
                     else:
@@ -595,6 +595,38 @@ def judge_producer(world, h, relaxed):
                 world.violate('C04', 'dispatch-return', fe, 'dispatcher',
                               f'Dispatcher.dispatch returned {e["ret"]!r} for {_fmt_name(e["name"])} but {took} callback(s) ran')
             del key_n
+    # direct safety core of C05 on the producer side, independent of the dispatch model: an Interest that needs checking
+    # reaches a handler only after an accepting run of THAT handler's validator (or of the application default one)
+    used = set()
+    for x in h.hcalls:
+        arr = arrivals.get((tuple(x['name']), x['nonce']))
+        if arr is None or not arr[1].get('need') or world.cfg.get('dispatcher'):
+            continue
+        c = arr[1]
+        aop = h.attach_ops.get(x['hid'])
+        if aop is None:
+            continue
+        vs = aop.get('validator')
+        who = ('route', x['hid'])
+        if fe != 'v2':
+            if not c.get('signed'):
+                continue                    # legacy front-end: unsigned parameterised Interests get the digest check only
+            if vs is None:
+                vs = world.scenario.get('app_int_validator')
+                who = ('appdefault',)
+            if vs is None:
+                continue                    # library default checker
+        accepting = vs is not None and not vs.get('raise') and \
+            vs.get('verdict', 'PASS') in (ACCEPT_V2 if fe == 'v2' else TRUTHY_V1)
+        run = next((v for v in h.val_end.get(who, []) if v['seq'] < x['seq'] and v['seq'] not in used), None)
+        if run is not None:
+            used.add(run['seq'])
+        if vs is None or not accepting or run is None:
+            world.violate('C05', 'producer-unvalidated', fe, 'handler-validator',
+                          f'Interest {_fmt_name(x["name"])} nonce={x["nonce"]} reached handler {x["hid"]} '
+                          + ('which has no validator' if vs is None else
+                             ('whose validator does not accept' if not accepting else
+                              'without a completed run of that handler\'s validator')))
     # validators must not be consulted for plain Interests
     for who, evs in h.val_start.items():
         if who[0] == 'route':
